@@ -142,7 +142,7 @@ pub fn render_steps(dice: &[[u8; 4]]) -> Vec<StepText> {
     for (i, d) in dice.iter().enumerate() {
         let mut st = StepText::default();
         let mut kind = K::Ok;
-        let choice = d[0] % 40;
+        let choice = d[0] % 46;
         let text = match choice {
             1 if !env.of(K::Int).is_empty() => {
                 let v = pick(d[1], &env.of(K::Int)).0.clone();
@@ -229,18 +229,18 @@ pub fn render_steps(dice: &[[u8; 4]]) -> Vec<StepText> {
                     "(k, inc) = %m1".to_string()
                 }
             }
-            28 => {
+            28 | 40 | 41 => {
                 let n = env.fresh("fu");
                 env.bind(&n, K::UFn, i);
                 format!("{n} = #'int {{ | =0 => 0x00 | =n => n }}")
             }
-            29 if !env.of(K::UFn).is_empty() => {
+            29 | 42 | 43 if !env.of(K::UFn).is_empty() => {
                 let fu = pick(d[1], &env.of(K::UFn)).0.clone();
                 let n = env.fresh("u");
                 env.bind(&n, K::UVal, i);
                 format!("{n} = {} {fu}", d[2] % 3)
             }
-            30 if !env.of(K::UVal).is_empty() => {
+            30 | 44 | 45 if !env.of(K::UVal).is_empty() => {
                 // possibly the first run-time test against 'int / 'bin in the session
                 kind = K::Int;
                 st.type_test = true;
